@@ -327,7 +327,7 @@ class CollectionManifest(BaseCollectionManifest):
             )
         if num:
             matching_rows = (
-                row for row in matching_rows if row["num"] and not row["scaled"]
+                row for row in matching_rows if row["num"] == num and not row["scaled"]
             )
 
         if abund:
